@@ -40,6 +40,17 @@ vars == <<label, g, L, designFailing, loaded, fired, evSrc, evCh, runs, bad>>
 ShapesTiny     == {<<2, 1>>, <<2, 2>>}
 ShapesQuick    == {<<2, 1>>, <<2, 2>>, <<2, 3>>, <<2, 4>>, <<3, 1>>, <<3, 2>>, <<3, 3>>}
 ShapesThorough == ShapesQuick \cup {<<3, 4>>}
+\* slices of the family, one TLC run each (initial states are computed by one thread)
+ShapesQuickA == {<<3, 3>>}
+ShapesQuickB == ShapesQuick \ ShapesQuickA
+S21 == {<<2, 1>>}
+S22 == {<<2, 2>>}
+S23 == {<<2, 3>>}
+S24 == {<<2, 4>>}
+S31 == {<<3, 1>>}
+S32 == {<<3, 2>>}
+S33 == {<<3, 3>>}
+S34 == {<<3, 4>>}
 AllVariants == {"plain", "side1", "sideall", "bindless", "chain", "chainre", "entryre",
                 "dynmod", "dynfresh", "dynentry", "dynentry2", "entent", "ententre",
                 "combo1", "combo2"}
